@@ -19,7 +19,7 @@ from lv import builtin_models as M
 from lv.props import common
 
 ID = 'C20'
-BUDGET = {'quick': 1380, 'thorough': 36800}        # generated cases (calls)
+BUDGET = {'quick': 920, 'thorough': 36800}        # generated cases (calls)
 WALL = {'quick': 175, 'thorough': 3000}
 RULE = ('round-robin over every built-in named in the statement (46-slot schedule, '
         'UDF-backed aggregates twice); arguments are Hypothesis draws from small '
@@ -39,6 +39,9 @@ ASSUMPTIONS = [
     'floats compared with 1e-9 relative tolerance; List as multiset, Set as set, '
     'ArgMin/ArgMax/K/Array ties: any answer consistent with the documentation',
     'dialect-library parse memoised per process (filled by the real parser)',
+    'permutations other than the first and last of a case reorder the PARSED facts '
+    'instead of re-parsing the reordered text; on the last permutation of every case '
+    'both routes are compiled and their SQL must be identical (else harness error)',
 ]
 
 # ---- known-finding input classes (generator keeps away from them unless switched on)
@@ -223,10 +226,11 @@ def gen_arith(r, op):
     raise ValueError(op)
 
 
-SIZE_W_UDF = [(1, 6), (2, 20), (3, 40), (4, 26), (5, 8)]        # Array
-SIZE_W_K = [(1, 4), (2, 12), (3, 34), (4, 35), (5, 15)]          # bounded heaps
-SIZE_W_ARG1 = [(1, 8), (2, 27), (3, 40), (4, 20), (5, 5)]        # ArgMin, ArgMax, Set
-SIZE_W_NATIVE = [(1, 8), (2, 30), (3, 45), (4, 15), (5, 2)]
+# number of facts (n! programs per case): weights in per cent
+SIZE_W_UDF = [(1, 6), (2, 20), (3, 42), (4, 28), (5, 4)]         # Array
+SIZE_W_K = [(1, 4), (2, 12), (3, 38), (4, 40), (5, 6)]           # bounded heaps
+SIZE_W_ARG1 = [(1, 8), (2, 27), (3, 40), (4, 22), (5, 3)]        # ArgMin, ArgMax, Set
+SIZE_W_NATIVE = [(1, 8), (2, 30), (3, 46), (4, 15), (5, 1)]      # SQLite's own aggregates
 
 
 def pick_w(r, table):
@@ -257,7 +261,7 @@ def gen_agg(r, op, excl):
     kt = r.choice(['int', 'str'])
     # ordering / aggregated values: a small pool so that ties and duplicates are common
     isk = op in ('ArgMinK', 'ArgMaxK')
-    distinct_vals = P(r, 60 if isk else 35)
+    distinct_vals = P(r, 60 if isk else 45)
     pool = gen_pool(r, vt, n if distinct_vals else r.randint(1, 3), distinct_vals)
     keymode = r.choice(['distinct', 'distinct', 'dups'])
     rows = []
@@ -507,13 +511,14 @@ def agg_text(case, rows):
 
 # ================================================================== execution
 
-def run_text(text):
-    """-> ('ok', hdr, rows) | ('fail', bucket-suffix, detail) | ('inconclusive', why, '')"""
+def run_text(text, rules=None):
+    """-> ('ok', hdr, rows, sql) | ('fail', bucket-suffix, detail) |
+    ('inconclusive', why, '').  rules: the parse of `text` when already known."""
     err = io.StringIO()
     try:
         with contextlib.redirect_stderr(err):
-            hdr, rows, sql = drive.run(text, 'T')
-        return ('ok', hdr, rows)
+            hdr, rows, sql = drive.run(text, 'T', rules=rules)
+        return ('ok', hdr, rows, sql)
     except drive.Interrupted:
         return ('inconclusive', 'sqlite_budget', '')
     except drive.DIAGNOSTICS as e:
@@ -585,6 +590,37 @@ def check_scalar(case):
     return ([], info) if ok else bad('wrong_value', got)
 
 
+def parse_once(text, nfacts):
+    """Parse of the identity-order program and the positions of its facts, or
+    (None, None) when anything is unusual (then every permutation is parsed)."""
+    try:
+        with contextlib.redirect_stderr(io.StringIO()):
+            rules = drive.parse_rules(text)
+        fpos = [i for i, r in enumerate(rules) if r['head']['predicate_name'] == 'F']
+        lines = [l[:-1] for l in text.split('\n') if l.startswith('F(')]
+        if len(fpos) != nfacts or [rules[i]['full_text'] for i in fpos] != lines:
+            return None, None
+        return rules, fpos
+    except Exception:
+        return None, None
+
+
+def permuted_rules(rules, fpos, p):
+    out = list(rules)
+    for t, i in enumerate(fpos):
+        out[i] = rules[fpos[p[t]]]
+    return out
+
+
+def same_sql_or_die(text, rules, sql):
+    """Harness sanity: reordering the parsed facts == parsing the reordered text."""
+    with drive.quiet(), contextlib.redirect_stderr(io.StringIO()):
+        prog, sql2 = drive.compile_rules(rules, 'T')
+    if sql2 != sql:
+        raise RuntimeError('C20 harness: permuting parsed facts and parsing permuted '
+                           'text give different SQL for\n%s' % text)
+
+
 def distinct_perms(rows):
     seen = set()
     for p in itertools.permutations(range(len(rows))):
@@ -627,10 +663,16 @@ def check_agg(case):
     def add(bucket, detail, order):
         if bucket not in fails:
             fails[bucket] = (detail, order)
-    for p in perms:
+    parsed, fpos = parse_once(info['text'], len(rows))
+    for j, p in enumerate(perms):
         order = [rows[i] for i in p]
         text = agg_text(case, order)
-        res = run_text(text)
+        if parsed is None or j == 0 or j == len(perms) - 1:
+            res = run_text(text)                    # parser sees the permuted text
+            if parsed is not None and j > 0 and res[0] == 'ok':
+                same_sql_or_die(text, permuted_rules(parsed, fpos, p), res[3])
+        else:                                       # parsed facts reordered (x1.7 faster)
+            res = run_text(text, rules=permuted_rules(parsed, fpos, p))
         info['runs'] += 1
         if res[0] == 'inconclusive':
             info['inconclusive'] = res[1]
@@ -751,10 +793,10 @@ def run_case(case):
 def slot_cost(b):
     """Expected number of programs per case (for balancing shards)."""
     if b in ('ArgMinK', 'ArgMaxK'):
-        return 28.7
+        return 20.0
     if b in ('ArgMin', 'ArgMax', 'Set'):
-        return 13.8
-    return 18.7 if b == 'Array' else 9.4 if b in AGGS else 0.6
+        return 11.9
+    return 14.4 if b == 'Array' else 8.2 if b in AGGS else 0.6
 
 
 def assign_slots(n):
@@ -845,6 +887,19 @@ def minimise(case, bucket):
                 return fails(dict(case, a=a2))
             a[key] = core.ddmin(a[key], f2, max_tests=30)
     return dict(case, a=a)
+
+
+# key of a known-findings entry -> failure buckets it covers (lv.check.known_match)
+KNOWN_GROUPS = {
+    'D8a': ['List:null_kept', 'Set:null_kept', 'Array:null_kept',
+            'Array:error:udf_raised:TypeError@sqlite3_logica.py:finalize'],
+    'D8b': ['List:nothing_not_null'],
+    'D8c': ['Count:nothing_not_null'],
+}
+
+
+def known_match(entry, bucket):
+    return bucket == entry['key'] or bucket in KNOWN_GROUPS.get(entry['key'], [])
 
 
 def evidence_extra(col):
